@@ -69,6 +69,7 @@ type vcfsScenario struct {
 	NameMode string `json:"namemode"` // "" (symbols are the names) | "bytes" (names drawn from 0x01-0xff except '/')
 	Saves    int    `json:"saves"`    // C09: number of save points
 	FSteps   []vcfsFStep `json:"fsteps"` // C09 mode "flushdir"
+	Hold     bool        `json:"hold"`   // background Keep writes stay pending across the NEXT call
 }
 
 // one step of a CollFSFlushDir.tla scenario (C09, mode "flushdir")
@@ -189,6 +190,95 @@ func (k *vcfsKeep) seed(data []byte) string {
 	return fmt.Sprintf("%s+%d", h, len(data))
 }
 
+// Hold mode (scenario field "hold"): a Keep write started outside a save (asynchronous Flush,
+// pruneMemSegments) does not return until the driver releases it, which it does after the NEXT
+// call of the scenario - so "a call happens while the block write of a flush is still pending" is
+// produced on purpose in the sequential drivers too, not only by luck.  At most 3 writes are held
+// (the throttle has 4 slots; a call must never wait for a write the driver itself is holding), and
+// everything is released before any save.
+type vcfsHold struct {
+	mu   sync.Mutex
+	held []chan struct{}
+}
+
+func (h *vcfsHold) gate(p *vcfsPut) bool {
+	if !p.BG {
+		return true
+	}
+	h.mu.Lock()
+	if len(h.held) >= 3 {
+		h.mu.Unlock()
+		return true
+	}
+	ch := make(chan struct{})
+	h.held = append(h.held, ch)
+	h.mu.Unlock()
+	<-ch
+	return true
+}
+
+func (h *vcfsHold) releaseAll() int {
+	h.mu.Lock()
+	held := h.held
+	h.held = nil
+	h.mu.Unlock()
+	for _, ch := range held {
+		close(ch)
+	}
+	return len(held)
+}
+
+// settle releases the held writes and waits until their goroutines are through (no write in
+// flight, no open flushing channel).
+func (r *vcfsRun) settle() {
+	if r.hold == nil || r.dead {
+		return
+	}
+	r.guard("settle", func() {
+		for i := 0; i < 40000; i++ {
+			n := r.hold.releaseAll()
+			if n == 0 && r.keep.inflightNow() == 0 && !vcfsAnyFlushing(r.fs) {
+				return
+			}
+			time.Sleep(100 * time.Microsecond)
+		}
+	})
+}
+
+// vcfsAnyFlushing: does any memSegment still have an open flushing channel?
+func vcfsAnyFlushing(fs CollectionFileSystem) bool {
+	cfs, ok := fs.(*collectionFileSystem)
+	if !ok {
+		return false
+	}
+	found := false
+	var walk func(dn *dirnode)
+	walk = func(dn *dirnode) {
+		dn.RLock()
+		defer dn.RUnlock()
+		for _, n := range dn.inodes {
+			switch n := n.(type) {
+			case *dirnode:
+				walk(n)
+			case *filenode:
+				n.RLock()
+				for _, seg := range n.segments {
+					if ms, ok := seg.(*memSegment); ok && ms.flushing != nil {
+						select {
+						case <-ms.flushing:
+						default:
+							found = true
+						}
+					}
+				}
+				n.RUnlock()
+			}
+		}
+	}
+	walk(cfs.fileSystem.root.(*dirnode))
+	return found
+}
+
 // fake API client: records manifests saved by Sync()
 type vcfsAPI struct {
 	mu    sync.Mutex
@@ -306,6 +396,7 @@ type vcfsRun struct {
 	origLoc map[string]bool   // hash+size of blocks of the original manifest
 	marks   []int             // start / end offsets of recent writes and truncates (see posReads)
 	plan    []vcfsOp          // calls queued by the random generator (multi-call patterns)
+	hold    *vcfsHold         // hold mode (see vcfsHold)
 	mu      sync.Mutex
 }
 
@@ -871,6 +962,17 @@ func (r *vcfsRun) flushStep(kind string) {
 		kind = []string{"flushall", "flushlong", "flushdir", "marshal", "sync"}[r.rng.Intn(5)]
 	}
 	var err error
+	if kind == "marshal" || kind == "sync" {
+		r.settle() // a save waits for pending block writes: they must not be held by the driver
+		r.keep.mu.Lock()
+		r.keep.inSave = true // (its own block writes are not background writes: never held)
+		r.keep.mu.Unlock()
+		defer func() {
+			r.keep.mu.Lock()
+			r.keep.inSave = false
+			r.keep.mu.Unlock()
+		}()
+	}
 	switch kind {
 	case "", "none":
 		return
@@ -1275,10 +1377,17 @@ func vcfsRunScenario(scn vcfsScenario) []vcfsEvent {
 	if r.start(nil) != nil {
 		return r.events
 	}
+	if scn.Hold {
+		r.hold = &vcfsHold{}
+		r.keep.gate = r.hold.gate
+	}
 	r.snap()
 	step := func(op vcfsOp) {
 		n := len(r.events)
 		r.do(op)
+		if op.Op != "flushnow" {
+			r.settle() // (hold mode: what the previous flush / this call started completes now)
+		}
 		if len(r.events) == n {
 			return // not applicable (no such handle)
 		}
@@ -1301,6 +1410,11 @@ func vcfsRunScenario(scn vcfsScenario) []vcfsEvent {
 			}
 			step(op)
 		}
+	}
+	if r.hold != nil {
+		r.settle()
+		r.snap()
+		r.posReads()
 	}
 	return r.events
 }
